@@ -131,6 +131,35 @@ def anyAnsM (l : List Micro) : Bool := l.any Micro.ansM
 @[simp] theorem anyAnsM_append (a b : List Micro) : anyAnsM (a ++ b) = (anyAnsM a || anyAnsM b) := by
   simp [anyAnsM]
 
+/-- Done "OK" / Error: the answer to a request (Done "" is only ever a cleared busy report). -/
+def Prog.isAnswer : Prog → Bool
+  | .done | .error => true
+  | _ => false
+
+def Micro.isProc : Micro → Bool
+  | .setProg p => p.isProcessing
+  | _ => false
+
+def hasProc (l : List Micro) : Bool := l.any Micro.isProc
+@[simp] theorem hasProc_nil : hasProc [] = false := rfl
+@[simp] theorem hasProc_cons (x : Micro) (xs : List Micro) : hasProc (x :: xs) = (x.isProc || hasProc xs) := by
+  simp [hasProc]
+@[simp] theorem hasProc_append (a b : List Micro) : hasProc (a ++ b) = (hasProc a || hasProc b) := by
+  simp [hasProc]
+
+/-- worker sections that do not touch any reload flag, the queue or the retirement channel: what
+the worker may still run after it has given the request away. -/
+def Micro.inert : Micro → Bool
+  | .nop | .notifyM | .endSupp | .readProg | .writeClr => true
+  | _ => false
+
+def allInert (l : List Micro) : Bool := l.all Micro.inert
+@[simp] theorem allInert_nil : allInert [] = true := rfl
+@[simp] theorem allInert_cons (x : Micro) (xs : List Micro) : allInert (x :: xs) = (x.inert && allInert xs) := by
+  simp [allInert]
+@[simp] theorem allInert_append (a b : List Micro) : allInert (a ++ b) = (allInert a && allInert b) := by
+  simp [allInert]
+
 def anyRd (l : List Micro) : Bool := l.any Micro.isReader
 def anyClrW (l : List Micro) : Bool := l.any Micro.clrW
 def anyClrM (l : List Micro) : Bool := l.any Micro.clrM
@@ -158,9 +187,10 @@ def wfW : List Micro → Bool
     x.wAllowed && wfW rest &&
     (match x with
      | .coalesce => decide (1 ≤ wsum Micro.tokW rest)
-     | .storePF => anyRd rest
+     | .storePF => anyRd rest && allInert rest
+     | .beginHandoff => allInert rest
      | .setActive true => anyClrW rest
-     | .setProg p => !p.isProcessing || anyAnsW rest
+     | .setProg p => if p.isProcessing then anyAnsW rest else !anyAnsW rest
      | _ => true)
 
 /-- main-loop programs. -/
@@ -171,6 +201,8 @@ def wfM : List Micro → Bool
     (match x with
      | .storeReloading _ => anyRelM rest && anyClrM rest
      | .waitReady => anyRelM rest
+     | .setProg _ => anyRelM rest && !anyAnsM rest
+     | .setResult => anyRelM rest && !anyAnsM rest
      | .storePF => anyRd rest
      | .finishFailHead => anyRd rest
      | _ => true)
@@ -192,6 +224,12 @@ theorem anyRelM_of_firstRelIsStore (l : List Micro) (h : firstRelIsStore l = tru
   | cons x xs ih =>
     cases x <;> simp_all [firstRelIsStore, Micro.isRelM]
 
+/-- the request in progress has been announced (`Processing` written) and its own answer is still
+to be written: by the worker (Error, or it still has to hand off), by the main loop (Done / Error
+after the serve-ready wait), or the hand-off is waiting for the main loop. -/
+def answerPending (s : St) : Bool :=
+  (anyAnsW s.w && !hasProc s.w) || anyAnsM s.m || (s.reloading && !anyRelM s.m)
+
 /-! ## the invariant -/
 
 structure Inv (s : St) : Prop where
@@ -207,6 +245,8 @@ structure Inv (s : St) : Prop where
   act : s.active = true → anyClrW s.w = true ∨ anyClrM s.m = true ∨ s.reloading = true
   proc : s.progress.isProcessing = true → anyAnsW s.w = true ∨ anyAnsM s.m = true ∨
           (s.reloading = true ∧ anyRelM s.m = false)
+  tail : wsum Micro.tokW s.w = 0 → allInert s.w = true
+  own : answerPending s = true → s.progress.isAnswer = false
 
 def Good (s : St) : Prop := s.exited = true ∨ Inv s
 
@@ -242,7 +282,7 @@ theorem num_stepW {s : St} (h : Inv s) {x : Micro} {rest : List Micro} (hw : s.w
     (hx : (afterW s x rest).exited = false) :
     tokens (afterW s x rest) = (afterW s x rest).pending.toNat ∧
     (afterW s x rest).suppress = owed (afterW s x rest) := by
-  obtain ⟨tok, sup, wfw, wfm, rel1, store, note, busy, act, proc⟩ := h
+  obtain ⟨tok, sup, wfw, wfm, rel1, store, note, busy, act, proc, tail, own⟩ := h
   rw [hw] at wfw
   simp only [tokens, owed, hw] at tok sup
   have hp := toNat_le_one s.pending
@@ -276,7 +316,7 @@ theorem num_stepM {s : St} (h : Inv s) {x : Micro} {rest : List Micro} (hm : s.m
     (hx : (afterM s x rest).exited = false) :
     tokens (afterM s x rest) = (afterM s x rest).pending.toNat ∧
     (afterM s x rest).suppress = owed (afterM s x rest) := by
-  obtain ⟨tok, sup, wfw, wfm, rel1, store, note, busy, act, proc⟩ := h
+  obtain ⟨tok, sup, wfw, wfm, rel1, store, note, busy, act, proc, tail, own⟩ := h
   rw [hm] at wfm rel1 store
   simp only [tokens, owed, hm] at tok sup
   have hp := toNat_le_one s.pending
@@ -321,9 +361,12 @@ theorem rest_stepW {s : St} (h : Inv s) {x : Micro} {rest : List Micro} (hw : s.
         0 < s'.gStore + s'.gEnd + s'.gRead + s'.gWrite) ∧
     (s'.active = true → anyClrW s'.w = true ∨ anyClrM s'.m = true ∨ s'.reloading = true) ∧
     (s'.progress.isProcessing = true → anyAnsW s'.w = true ∨ anyAnsM s'.m = true ∨
-        (s'.reloading = true ∧ anyRelM s'.m = false)) := by
-  obtain ⟨tok, sup, wfw, wfm, rel1, store, note, busy, act, proc⟩ := h
-  rw [hw] at wfw busy act proc
+        (s'.reloading = true ∧ anyRelM s'.m = false)) ∧
+    (wsum Micro.tokW s'.w = 0 → allInert s'.w = true) ∧
+    (answerPending s' = true → s'.progress.isAnswer = false) := by
+  obtain ⟨tok, sup, wfw, wfm, rel1, store, note, busy, act, proc, tail, own⟩ := h
+  rw [hw] at wfw busy act proc tail
+  simp only [answerPending, hw] at own
   simp only [tokens, owed, hw] at tok sup
   have hfs := anyRelM_of_firstRelIsStore s.m
   have key : 1 ≤ wsum Micro.tokW (x :: rest) → s.reloading = false ∧ anyRelM s.m = false := by
@@ -341,25 +384,25 @@ theorem rest_stepW {s : St} (h : Inv s) {x : Micro} {rest : List Micro} (hw : s.
   case setProg p =>
     cases p <;>
     (simp only [Bool.and_eq_true, decide_eq_true_eq, Bool.true_and, Bool.not_eq_true', Bool.or_eq_true] at wfw
-     refine ⟨?_, ?_, ?_, ?_, ?_, ?_, ?_, ?_⟩ <;>
-     simp_all [Micro.ansW, Micro.ansM, Prog.isProcessing, wfW, Micro.wAllowed, Micro.isReader, Micro.clrW, Micro.tokW, Micro.sup, Prog.isBusy])
+     refine ⟨?_, ?_, ?_, ?_, ?_, ?_, ?_, ?_, ?_, ?_⟩ <;>
+     simp_all [Micro.ansW, Micro.ansM, Prog.isProcessing, Micro.inert, Micro.isProc, Prog.isAnswer, answerPending, wfW, Micro.wAllowed, Micro.isReader, Micro.clrW, Micro.tokW, Micro.sup, Prog.isBusy])
   case readProg =>
     by_cases hb : s.progress.isBusy = true <;>
-    (refine ⟨?_, ?_, ?_, ?_, ?_, ?_, ?_, ?_⟩ <;>
-     simp_all [Micro.ansW, Micro.ansM, Prog.isProcessing, wfW, Micro.wAllowed, Micro.isReader, Micro.clrW, Micro.tokW, Micro.sup, Prog.isBusy])
+    (refine ⟨?_, ?_, ?_, ?_, ?_, ?_, ?_, ?_, ?_, ?_⟩ <;>
+     simp_all [Micro.ansW, Micro.ansM, Prog.isProcessing, Micro.inert, Micro.isProc, Prog.isAnswer, answerPending, wfW, Micro.wAllowed, Micro.isReader, Micro.clrW, Micro.tokW, Micro.sup, Prog.isBusy])
   case setActive b =>
     cases b <;>
     (simp only [Bool.and_eq_true, decide_eq_true_eq, Bool.true_and, Bool.not_eq_true'] at wfw
-     refine ⟨?_, ?_, ?_, ?_, ?_, ?_, ?_, ?_⟩ <;>
-     simp_all [Micro.ansW, Micro.ansM, Prog.isProcessing, wfW, Micro.wAllowed, Micro.isReader, Micro.clrW, Micro.tokW, Micro.sup, Prog.isBusy])
+     refine ⟨?_, ?_, ?_, ?_, ?_, ?_, ?_, ?_, ?_, ?_⟩ <;>
+     simp_all [Micro.ansW, Micro.ansM, Prog.isProcessing, Micro.inert, Micro.isProc, Prog.isAnswer, answerPending, wfW, Micro.wAllowed, Micro.isReader, Micro.clrW, Micro.tokW, Micro.sup, Prog.isBusy])
   case beginHandoff =>
     have k := key (by simp [Micro.tokW])
-    refine ⟨?_, ?_, ?_, ?_, ?_, ?_, ?_, ?_⟩ <;>
-     simp_all [Micro.ansW, Micro.ansM, Prog.isProcessing, wfW, Micro.wAllowed, Micro.isReader, Micro.clrW, Micro.tokW, Micro.sup]
+    refine ⟨?_, ?_, ?_, ?_, ?_, ?_, ?_, ?_, ?_, ?_⟩ <;>
+     simp_all [Micro.ansW, Micro.ansM, Prog.isProcessing, Micro.inert, Micro.isProc, Prog.isAnswer, answerPending, wfW, Micro.wAllowed, Micro.isReader, Micro.clrW, Micro.tokW, Micro.sup]
   all_goals (
     simp only [Bool.and_eq_true, decide_eq_true_eq, Bool.true_and, Bool.not_eq_true'] at wfw
-    refine ⟨?_, ?_, ?_, ?_, ?_, ?_, ?_, ?_⟩ <;>
-    simp_all [Micro.ansW, Micro.ansM, Prog.isProcessing, wfW, Micro.wAllowed, Micro.isReader, Micro.clrW, Micro.tokW, Micro.sup, Prog.isBusy])
+    refine ⟨?_, ?_, ?_, ?_, ?_, ?_, ?_, ?_, ?_, ?_⟩ <;>
+    simp_all [Micro.ansW, Micro.ansM, Prog.isProcessing, Micro.inert, Micro.isProc, Prog.isAnswer, answerPending, wfW, Micro.wAllowed, Micro.isReader, Micro.clrW, Micro.tokW, Micro.sup, Prog.isBusy])
 
 theorem rest_stepM {s : St} (h : Inv s) {x : Micro} {rest : List Micro} (hm : s.m = x :: rest)
     (hx : (afterM s x rest).exited = false) :
@@ -371,9 +414,12 @@ theorem rest_stepM {s : St} (h : Inv s) {x : Micro} {rest : List Micro} (hm : s.
         0 < s'.gStore + s'.gEnd + s'.gRead + s'.gWrite) ∧
     (s'.active = true → anyClrW s'.w = true ∨ anyClrM s'.m = true ∨ s'.reloading = true) ∧
     (s'.progress.isProcessing = true → anyAnsW s'.w = true ∨ anyAnsM s'.m = true ∨
-        (s'.reloading = true ∧ anyRelM s'.m = false)) := by
-  obtain ⟨tok, sup, wfw, wfm, rel1, store, note, busy, act, proc⟩ := h
+        (s'.reloading = true ∧ anyRelM s'.m = false)) ∧
+    (wsum Micro.tokW s'.w = 0 → allInert s'.w = true) ∧
+    (answerPending s' = true → s'.progress.isAnswer = false) := by
+  obtain ⟨tok, sup, wfw, wfm, rel1, store, note, busy, act, proc, tail, own⟩ := h
   rw [hm] at wfm busy act rel1 store note proc
+  simp only [answerPending, hm] at own
   simp only [tokens, owed, hm] at tok sup
   have hp : s.pending.toNat ≤ 1 := by cases s.pending <;> simp
   have keySig : 1 ≤ wsum Micro.sigTok (x :: rest) → s.queue.length = 0 ∧ s.pending = true := by
@@ -393,49 +439,49 @@ theorem rest_stepM {s : St} (h : Inv s) {x : Micro} {rest : List Micro} (hm : s.
   case exitIdle => simp at hx
   case casQ k =>
     by_cases hpd : s.pending = true <;>
-    (refine ⟨?_, ?_, ?_, ?_, ?_, ?_, ?_, ?_⟩ <;>
-     simp_all [Micro.ansW, Micro.ansM, Prog.isProcessing, wfM, Micro.mAllowed, Micro.isReader, Micro.clrM, Micro.relM, Micro.isRelM, firstRelIsStore, Prog.isBusy])
+    (refine ⟨?_, ?_, ?_, ?_, ?_, ?_, ?_, ?_, ?_, ?_⟩ <;>
+     simp_all [Micro.ansW, Micro.ansM, Prog.isProcessing, Micro.inert, Micro.isProc, Prog.isAnswer, answerPending, wfM, Micro.mAllowed, Micro.isReader, Micro.clrM, Micro.relM, Micro.isRelM, firstRelIsStore, Prog.isBusy])
   case beginSend k =>
     have k1 := keySig (by simp [Micro.sigTok])
     have hq : s.queue.length < 1 := by omega
     simp only [hq, if_true]
-    (refine ⟨?_, ?_, ?_, ?_, ?_, ?_, ?_, ?_⟩ <;>
-     simp_all [Micro.ansW, Micro.ansM, Prog.isProcessing, wfM, Micro.mAllowed, Micro.isReader, Micro.clrM, Micro.relM, Micro.isRelM, firstRelIsStore, Prog.isBusy, busyOf] <;>
+    (refine ⟨?_, ?_, ?_, ?_, ?_, ?_, ?_, ?_, ?_, ?_⟩ <;>
+     simp_all [Micro.ansW, Micro.ansM, Prog.isProcessing, Micro.inert, Micro.isProc, Prog.isAnswer, answerPending, wfM, Micro.mAllowed, Micro.isReader, Micro.clrM, Micro.relM, Micro.isRelM, firstRelIsStore, Prog.isBusy, busyOf] <;>
      first | omega | (intros; right; right; right; omega))
   case writeBusy b =>
-    by_cases hpd : s.pending = true <;> cases b <;> (refine ⟨?_, ?_, ?_, ?_, ?_, ?_, ?_, ?_⟩ <;>
-     simp_all [Micro.ansW, Micro.ansM, Prog.isProcessing, wfM, Micro.mAllowed, Micro.isReader, Micro.clrM, Micro.relM, Micro.isRelM, firstRelIsStore, Prog.isBusy, busyOf] <;>
+    by_cases hpd : s.pending = true <;> cases b <;> (refine ⟨?_, ?_, ?_, ?_, ?_, ?_, ?_, ?_, ?_, ?_⟩ <;>
+     simp_all [Micro.ansW, Micro.ansM, Prog.isProcessing, Micro.inert, Micro.isProc, Prog.isAnswer, answerPending, wfM, Micro.mAllowed, Micro.isReader, Micro.clrM, Micro.relM, Micro.isRelM, firstRelIsStore, Prog.isBusy, busyOf] <;>
      first | omega | (intros; right; right; right; omega))
   case readProg =>
-    by_cases hb : s.progress.isBusy = true <;> (refine ⟨?_, ?_, ?_, ?_, ?_, ?_, ?_, ?_⟩ <;>
-     simp_all [Micro.ansW, Micro.ansM, Prog.isProcessing, wfM, Micro.mAllowed, Micro.isReader, Micro.clrM, Micro.relM, Micro.isRelM, firstRelIsStore, Prog.isBusy, busyOf] <;>
+    by_cases hb : s.progress.isBusy = true <;> (refine ⟨?_, ?_, ?_, ?_, ?_, ?_, ?_, ?_, ?_, ?_⟩ <;>
+     simp_all [Micro.ansW, Micro.ansM, Prog.isProcessing, Micro.inert, Micro.isProc, Prog.isAnswer, answerPending, wfM, Micro.mAllowed, Micro.isReader, Micro.clrM, Micro.relM, Micro.isRelM, firstRelIsStore, Prog.isBusy, busyOf] <;>
      first | omega | (intros; right; right; right; omega))
-  case setActive b => cases b <;> (refine ⟨?_, ?_, ?_, ?_, ?_, ?_, ?_, ?_⟩ <;>
-     simp_all [Micro.ansW, Micro.ansM, Prog.isProcessing, wfM, Micro.mAllowed, Micro.isReader, Micro.clrM, Micro.relM, Micro.isRelM, firstRelIsStore, Prog.isBusy, busyOf] <;>
+  case setActive b => cases b <;> (refine ⟨?_, ?_, ?_, ?_, ?_, ?_, ?_, ?_, ?_, ?_⟩ <;>
+     simp_all [Micro.ansW, Micro.ansM, Prog.isProcessing, Micro.inert, Micro.isProc, Prog.isAnswer, answerPending, wfM, Micro.mAllowed, Micro.isReader, Micro.clrM, Micro.relM, Micro.isRelM, firstRelIsStore, Prog.isBusy, busyOf] <;>
      first | omega | (intros; right; right; right; omega))
-  case storeReloading b => cases b <;> (refine ⟨?_, ?_, ?_, ?_, ?_, ?_, ?_, ?_⟩ <;>
-     simp_all [Micro.ansW, Micro.ansM, Prog.isProcessing, wfM, Micro.mAllowed, Micro.isReader, Micro.clrM, Micro.relM, Micro.isRelM, firstRelIsStore, Prog.isBusy, busyOf] <;>
+  case storeReloading b => cases b <;> (refine ⟨?_, ?_, ?_, ?_, ?_, ?_, ?_, ?_, ?_, ?_⟩ <;>
+     simp_all [Micro.ansW, Micro.ansM, Prog.isProcessing, Micro.inert, Micro.isProc, Prog.isAnswer, answerPending, wfM, Micro.mAllowed, Micro.isReader, Micro.clrM, Micro.relM, Micro.isRelM, firstRelIsStore, Prog.isBusy, busyOf] <;>
      first | omega | (intros; right; right; right; omega))
   case storePF =>
     have k1 := keyRel (by simp [Micro.isRelM])
-    (refine ⟨?_, ?_, ?_, ?_, ?_, ?_, ?_, ?_⟩ <;>
-     simp_all [Micro.ansW, Micro.ansM, Prog.isProcessing, wfM, Micro.mAllowed, Micro.isReader, Micro.clrM, Micro.relM, Micro.isRelM, firstRelIsStore, Prog.isBusy, busyOf] <;>
+    (refine ⟨?_, ?_, ?_, ?_, ?_, ?_, ?_, ?_, ?_, ?_⟩ <;>
+     simp_all [Micro.ansW, Micro.ansM, Prog.isProcessing, Micro.inert, Micro.isProc, Prog.isAnswer, answerPending, wfM, Micro.mAllowed, Micro.isReader, Micro.clrM, Micro.relM, Micro.isRelM, firstRelIsStore, Prog.isBusy, busyOf] <;>
      first | omega | (intros; right; right; right; omega))
   case finishFailHead =>
     have k1 := keyRel (by simp [Micro.isRelM])
-    (refine ⟨?_, ?_, ?_, ?_, ?_, ?_, ?_, ?_⟩ <;>
-     simp_all [Micro.ansW, Micro.ansM, Prog.isProcessing, wfM, Micro.mAllowed, Micro.isReader, Micro.clrM, Micro.relM, Micro.isRelM, firstRelIsStore, Prog.isBusy, busyOf] <;>
+    (refine ⟨?_, ?_, ?_, ?_, ?_, ?_, ?_, ?_, ?_, ?_⟩ <;>
+     simp_all [Micro.ansW, Micro.ansM, Prog.isProcessing, Micro.inert, Micro.isProc, Prog.isAnswer, answerPending, wfM, Micro.mAllowed, Micro.isReader, Micro.clrM, Micro.relM, Micro.isRelM, firstRelIsStore, Prog.isBusy, busyOf] <;>
      first | omega | (intros; right; right; right; omega))
   case finishSucc =>
     have k1 := keyRel (by simp [Micro.isRelM])
-    rcases hrd : s.retDone with _ | _ | _ <;> (refine ⟨?_, ?_, ?_, ?_, ?_, ?_, ?_, ?_⟩ <;>
-     simp_all [Micro.ansW, Micro.ansM, Prog.isProcessing, wfM, Micro.mAllowed, Micro.isReader, Micro.clrM, Micro.relM, Micro.isRelM, firstRelIsStore, Prog.isBusy, busyOf] <;>
+    rcases hrd : s.retDone with _ | _ | _ <;> (refine ⟨?_, ?_, ?_, ?_, ?_, ?_, ?_, ?_, ?_, ?_⟩ <;>
+     simp_all [Micro.ansW, Micro.ansM, Prog.isProcessing, Micro.inert, Micro.isProc, Prog.isAnswer, answerPending, wfM, Micro.mAllowed, Micro.isReader, Micro.clrM, Micro.relM, Micro.isRelM, firstRelIsStore, Prog.isBusy, busyOf] <;>
      first | omega | (intros; right; right; right; omega))
-  case setResult => cases s.reloadErr <;> (refine ⟨?_, ?_, ?_, ?_, ?_, ?_, ?_, ?_⟩ <;>
-     simp_all [Micro.ansW, Micro.ansM, Prog.isProcessing, wfM, Micro.mAllowed, Micro.isReader, Micro.clrM, Micro.relM, Micro.isRelM, firstRelIsStore, Prog.isBusy, busyOf] <;>
+  case setResult => cases s.reloadErr <;> (refine ⟨?_, ?_, ?_, ?_, ?_, ?_, ?_, ?_, ?_, ?_⟩ <;>
+     simp_all [Micro.ansW, Micro.ansM, Prog.isProcessing, Micro.inert, Micro.isProc, Prog.isAnswer, answerPending, wfM, Micro.mAllowed, Micro.isReader, Micro.clrM, Micro.relM, Micro.isRelM, firstRelIsStore, Prog.isBusy, busyOf] <;>
      first | omega | (intros; right; right; right; omega))
-  all_goals (refine ⟨?_, ?_, ?_, ?_, ?_, ?_, ?_, ?_⟩ <;>
-     simp_all [Micro.ansW, Micro.ansM, Prog.isProcessing, wfM, Micro.mAllowed, Micro.isReader, Micro.clrM, Micro.relM, Micro.isRelM, firstRelIsStore, Prog.isBusy, busyOf] <;>
+  all_goals (refine ⟨?_, ?_, ?_, ?_, ?_, ?_, ?_, ?_, ?_, ?_⟩ <;>
+     simp_all [Micro.ansW, Micro.ansM, Prog.isProcessing, Micro.inert, Micro.isProc, Prog.isAnswer, answerPending, wfM, Micro.mAllowed, Micro.isReader, Micro.clrM, Micro.relM, Micro.isRelM, firstRelIsStore, Prog.isBusy, busyOf] <;>
      first | omega | (intros; right; right; right; omega))
 
 theorem inv_stepW {s : St} (h : Inv s) {x : Micro} {rest : List Micro} (hw : s.w = x :: rest) :
@@ -443,8 +489,8 @@ theorem inv_stepW {s : St} (h : Inv s) {x : Micro} {rest : List Micro} (hw : s.w
   cases hx : (afterW s x rest).exited
   · right
     obtain ⟨h1, h2⟩ := num_stepW h hw hx
-    obtain ⟨h3, h4, h5, h6, h7, h8, h9, h10⟩ := rest_stepW h hw hx
-    exact ⟨h1, h2, h3, h4, h5, h6, h7, h8, h9, h10⟩
+    obtain ⟨h3, h4, h5, h6, h7, h8, h9, h10, h11, h12⟩ := rest_stepW h hw hx
+    exact ⟨h1, h2, h3, h4, h5, h6, h7, h8, h9, h10, h11, h12⟩
   · left; exact hx
 
 theorem inv_stepM {s : St} (h : Inv s) {x : Micro} {rest : List Micro} (hm : s.m = x :: rest) :
@@ -452,8 +498,8 @@ theorem inv_stepM {s : St} (h : Inv s) {x : Micro} {rest : List Micro} (hm : s.m
   cases hx : (afterM s x rest).exited
   · right
     obtain ⟨h1, h2⟩ := num_stepM h hm hx
-    obtain ⟨h3, h4, h5, h6, h7, h8, h9, h10⟩ := rest_stepM h hm hx
-    exact ⟨h1, h2, h3, h4, h5, h6, h7, h8, h9, h10⟩
+    obtain ⟨h3, h4, h5, h6, h7, h8, h9, h10, h11, h12⟩ := rest_stepM h hm hx
+    exact ⟨h1, h2, h3, h4, h5, h6, h7, h8, h9, h10, h11, h12⟩
   · left; exact hx
 
 theorem hPath_of_get {i : Nat} {p : HPath} (h : handlerPaths[i]? = some p) : hPathOk p = true :=
@@ -492,7 +538,7 @@ theorem good_step {s s' : St} (h : Good s) (a : Act) (hs : step s a = some s') :
     · rename_i x rest hw
       simp only [Option.some.injEq] at hs
       rw [← hs]; exact inv_stepW hI hw
-  all_goals obtain ⟨tok, sup, wfw, wfm, rel1, store, note, busy, act, proc⟩ := hI
+  all_goals obtain ⟨tok, sup, wfw, wfm, rel1, store, note, busy, act, proc, tail, own⟩ := hI
   all_goals simp only [tokens, owed] at tok sup
   case sig k =>
     split at hs
@@ -501,8 +547,8 @@ theorem good_step {s s' : St} (h : Good s) (a : Act) (hs : step s a = some s') :
       simp only [Option.some.injEq] at hs
       subst hs
       right
-      refine ⟨?_, ?_, ?_, ?_, ?_, ?_, ?_, ?_, ?_, ?_⟩ <;>
-        simp_all [Micro.ansW, Micro.ansM, Prog.isProcessing, tokens, owed, wfM, Micro.mAllowed, Micro.relM, Micro.isRelM, Micro.sigTok, Micro.sup, firstRelIsStore,
+      refine ⟨?_, ?_, ?_, ?_, ?_, ?_, ?_, ?_, ?_, ?_, ?_, ?_⟩ <;>
+        simp_all [Micro.ansW, Micro.ansM, Prog.isProcessing, Micro.inert, Micro.isProc, Prog.isAnswer, answerPending, tokens, owed, wfM, Micro.mAllowed, Micro.relM, Micro.isRelM, Micro.sigTok, Micro.sup, firstRelIsStore,
           Micro.isReader, Micro.clrM]
     · cases hs
   case swallow k =>
@@ -516,17 +562,23 @@ theorem good_step {s s' : St} (h : Good s) (a : Act) (hs : step s a = some s') :
         cases hpd : s.pending
         · simp only [hm, anyRelM_cons, h1, Bool.or_true, hpd, Bool.toNat_true, Bool.toNat_false] at tok; omega
         · rfl
-      refine ⟨?_, ?_, ?_, ?_, ?_, ?_, ?_, ?_, ?_, ?_⟩ <;> simp_all [Micro.ansW, Micro.ansM, Prog.isProcessing, tokens, owed]
+      refine ⟨?_, ?_, ?_, ?_, ?_, ?_, ?_, ?_, ?_, ?_, ?_, ?_⟩ <;> simp_all [Micro.ansW, Micro.ansM, Prog.isProcessing, Micro.inert, Micro.isProc, Prog.isAnswer, answerPending, tokens, owed]
     · cases hs
+  case cliMark =>
+    simp only [Option.some.injEq] at hs; subst hs; right
+    exact ⟨tok, sup, wfw, wfm, rel1, store, note, busy, act, proc, tail, own⟩
+  case spuriousNotify =>
+    simp only [Option.some.injEq] at hs; subst hs; right
+    exact ⟨tok, sup, wfw, wfm, rel1, store, fun _ _ => rfl, busy, act, proc, tail, own⟩
   case chooseRet sc =>
     split at hs
     · simp only [Option.some.injEq] at hs; subst hs; right
-      exact ⟨tok, sup, wfw, wfm, rel1, store, note, busy, act, proc⟩
+      exact ⟨tok, sup, wfw, wfm, rel1, store, note, busy, act, proc, tail, own⟩
     · cases hs
   case tick d =>
     split at hs
     · simp only [Option.some.injEq] at hs; subst hs; right
-      exact ⟨tok, sup, wfw, wfm, rel1, store, note, busy, act, proc⟩
+      exact ⟨tok, sup, wfw, wfm, rel1, store, note, busy, act, proc, tail, own⟩
     · cases hs
   case term =>
     split at hs
@@ -535,59 +587,59 @@ theorem good_step {s s' : St} (h : Good s) (a : Act) (hs : step s a = some s') :
   case cliSend =>
     split at hs
     · simp only [Option.some.injEq] at hs; subst hs; right
-      refine ⟨?_, ?_, ?_, ?_, ?_, ?_, ?_, ?_, ?_, ?_⟩ <;> simp_all [Micro.ansW, Micro.ansM, Prog.isProcessing, tokens, owed, wfM, wfW, Micro.mAllowed, Micro.relM, Micro.isRelM, Micro.sigTok, Micro.sup, Micro.tokW, firstRelIsStore,
+      refine ⟨?_, ?_, ?_, ?_, ?_, ?_, ?_, ?_, ?_, ?_, ?_, ?_⟩ <;> simp_all [Micro.ansW, Micro.ansM, Prog.isProcessing, Micro.inert, Micro.isProc, Prog.isAnswer, answerPending, tokens, owed, wfM, wfW, Micro.mAllowed, Micro.relM, Micro.isRelM, Micro.sigTok, Micro.sup, Micro.tokW, firstRelIsStore,
           Micro.isReader, Micro.clrM, exec, Prog.isBusy, Prog.cliAccepts]
     · cases hs
   case closeMgr =>
     split at hs
     · simp only [Option.some.injEq] at hs; subst hs; right
-      refine ⟨?_, ?_, ?_, ?_, ?_, ?_, ?_, ?_, ?_, ?_⟩ <;> simp_all [Micro.ansW, Micro.ansM, Prog.isProcessing, tokens, owed, wfM, wfW, Micro.mAllowed, Micro.relM, Micro.isRelM, Micro.sigTok, Micro.sup, Micro.tokW, firstRelIsStore,
+      refine ⟨?_, ?_, ?_, ?_, ?_, ?_, ?_, ?_, ?_, ?_, ?_, ?_⟩ <;> simp_all [Micro.ansW, Micro.ansM, Prog.isProcessing, Micro.inert, Micro.isProc, Prog.isAnswer, answerPending, tokens, owed, wfM, wfW, Micro.mAllowed, Micro.relM, Micro.isRelM, Micro.sigTok, Micro.sup, Micro.tokW, firstRelIsStore,
           Micro.isReader, Micro.clrM, exec, Prog.isBusy, Prog.cliAccepts]
     · cases hs
   case closeG =>
     split at hs
     · simp only [Option.some.injEq] at hs; subst hs; right
-      refine ⟨?_, ?_, ?_, ?_, ?_, ?_, ?_, ?_, ?_, ?_⟩ <;> simp_all [Micro.ansW, Micro.ansM, Prog.isProcessing, tokens, owed, wfM, wfW, Micro.mAllowed, Micro.relM, Micro.isRelM, Micro.sigTok, Micro.sup, Micro.tokW, firstRelIsStore,
+      refine ⟨?_, ?_, ?_, ?_, ?_, ?_, ?_, ?_, ?_, ?_, ?_, ?_⟩ <;> simp_all [Micro.ansW, Micro.ansM, Prog.isProcessing, Micro.inert, Micro.isProc, Prog.isAnswer, answerPending, tokens, owed, wfM, wfW, Micro.mAllowed, Micro.relM, Micro.isRelM, Micro.sigTok, Micro.sup, Micro.tokW, firstRelIsStore,
           Micro.isReader, Micro.clrM, exec, Prog.isBusy, Prog.cliAccepts] <;> omega
     · cases hs
   case gStore =>
     split at hs
     · rename_i hg
       simp only [Option.some.injEq] at hs; subst hs; right
-      refine ⟨?_, ?_, ?_, ?_, ?_, ?_, ?_, ?_, ?_, ?_⟩
+      refine ⟨?_, ?_, ?_, ?_, ?_, ?_, ?_, ?_, ?_, ?_, ?_, ?_⟩
       · numtac s
       · numtac s
-      all_goals (simp_all [Micro.ansW, Micro.ansM, Prog.isProcessing, wfM, wfW, Micro.mAllowed, Micro.relM, Micro.isRelM, Micro.sigTok, Micro.sup, Micro.tokW, firstRelIsStore,
+      all_goals (simp_all [Micro.ansW, Micro.ansM, Prog.isProcessing, Micro.inert, Micro.isProc, Prog.isAnswer, answerPending, wfM, wfW, Micro.mAllowed, Micro.relM, Micro.isRelM, Micro.sigTok, Micro.sup, Micro.tokW, firstRelIsStore,
           Micro.isReader, Micro.clrM, exec, Prog.isBusy, Prog.cliAccepts] <;> first | omega | (intros; right; right; right; omega))
     · cases hs
   case gEnd =>
     split at hs
     · rename_i hg
       simp only [Option.some.injEq] at hs; subst hs; right
-      refine ⟨?_, ?_, ?_, ?_, ?_, ?_, ?_, ?_, ?_, ?_⟩
+      refine ⟨?_, ?_, ?_, ?_, ?_, ?_, ?_, ?_, ?_, ?_, ?_, ?_⟩
       · numtac s
       · numtac s
-      all_goals (simp_all [Micro.ansW, Micro.ansM, Prog.isProcessing, wfM, wfW, Micro.mAllowed, Micro.relM, Micro.isRelM, Micro.sigTok, Micro.sup, Micro.tokW, firstRelIsStore,
+      all_goals (simp_all [Micro.ansW, Micro.ansM, Prog.isProcessing, Micro.inert, Micro.isProc, Prog.isAnswer, answerPending, wfM, wfW, Micro.mAllowed, Micro.relM, Micro.isRelM, Micro.sigTok, Micro.sup, Micro.tokW, firstRelIsStore,
           Micro.isReader, Micro.clrM, exec, Prog.isBusy, Prog.cliAccepts] <;> first | omega | (intro hb; rcases busy hb with h | h | h | h <;> simp [h]; omega))
     · cases hs
   case gRead =>
     split at hs
     · rename_i hg
       simp only [Option.some.injEq] at hs; subst hs; right
-      refine ⟨?_, ?_, ?_, ?_, ?_, ?_, ?_, ?_, ?_, ?_⟩
+      refine ⟨?_, ?_, ?_, ?_, ?_, ?_, ?_, ?_, ?_, ?_, ?_, ?_⟩
       · numtac s
       · numtac s
-      all_goals (by_cases hb : s.progress.isBusy = true <;> simp_all [Micro.ansW, Micro.ansM, Prog.isProcessing, wfM, wfW, Micro.mAllowed, Micro.relM, Micro.isRelM, Micro.sigTok, Micro.sup, Micro.tokW, firstRelIsStore,
+      all_goals (by_cases hb : s.progress.isBusy = true <;> simp_all [Micro.ansW, Micro.ansM, Prog.isProcessing, Micro.inert, Micro.isProc, Prog.isAnswer, answerPending, wfM, wfW, Micro.mAllowed, Micro.relM, Micro.isRelM, Micro.sigTok, Micro.sup, Micro.tokW, firstRelIsStore,
           Micro.isReader, Micro.clrM, exec, Prog.isBusy, Prog.cliAccepts] <;> first | omega | (intros; right; right; right; omega))
     · cases hs
   case gWrite =>
     split at hs
     · rename_i hg
       simp only [Option.some.injEq] at hs; subst hs; right
-      refine ⟨?_, ?_, ?_, ?_, ?_, ?_, ?_, ?_, ?_, ?_⟩
+      refine ⟨?_, ?_, ?_, ?_, ?_, ?_, ?_, ?_, ?_, ?_, ?_, ?_⟩
       · numtac s
       · numtac s
-      all_goals (simp_all [Micro.ansW, Micro.ansM, Prog.isProcessing, wfM, wfW, Micro.mAllowed, Micro.relM, Micro.isRelM, Micro.sigTok, Micro.sup, Micro.tokW, firstRelIsStore,
+      all_goals (simp_all [Micro.ansW, Micro.ansM, Prog.isProcessing, Micro.inert, Micro.isProc, Prog.isAnswer, answerPending, wfM, wfW, Micro.mAllowed, Micro.relM, Micro.isRelM, Micro.sigTok, Micro.sup, Micro.tokW, firstRelIsStore,
           Micro.isReader, Micro.clrM, exec, Prog.isBusy, Prog.cliAccepts])
     · cases hs
   case wake i =>
@@ -609,12 +661,12 @@ theorem good_step {s s' : St} (h : Good s) (a : Act) (hs : step s a = some s') :
           cases hrl : s.reloading <;> rw [hr', hrl] at h4 <;>
             simp only [Bool.false_eq_true, if_false, if_true, Bool.and_eq_true, Bool.not_eq_true', beq_iff_eq] at h4
           · obtain ⟨h5, h6⟩ := h4
-            refine ⟨?_, ?_, ?_, ?_, ?_, ?_, ?_, ?_, ?_, ?_⟩ <;>
-              simp_all [Micro.ansW, Micro.ansM, Prog.isProcessing, tokens, owed] <;>
+            refine ⟨?_, ?_, ?_, ?_, ?_, ?_, ?_, ?_, ?_, ?_, ?_, ?_⟩ <;>
+              simp_all [Micro.ansW, Micro.ansM, Prog.isProcessing, Micro.inert, Micro.isProc, Prog.isAnswer, answerPending, tokens, owed] <;>
               (intro hb; rcases busy hb with h | h | h <;> simp [h])
           · obtain ⟨⟨h5, h6⟩, h7⟩ := h4
-            refine ⟨?_, ?_, ?_, ?_, ?_, ?_, ?_, ?_, ?_, ?_⟩ <;>
-              simp_all [Micro.ansW, Micro.ansM, Prog.isProcessing, tokens, owed] <;>
+            refine ⟨?_, ?_, ?_, ?_, ?_, ?_, ?_, ?_, ?_, ?_, ?_, ?_⟩ <;>
+              simp_all [Micro.ansW, Micro.ansM, Prog.isProcessing, Micro.inert, Micro.isProc, Prog.isAnswer, answerPending, tokens, owed] <;>
               (intro hb; rcases busy hb with h | h | h <;> simp [h])
         · cases hs
       · cases hs
@@ -629,9 +681,9 @@ theorem good_step {s s' : St} (h : Good s) (a : Act) (hs : step s a = some s') :
         have hok := wPath_of_get hp
         simp only [wPathOk, Bool.and_eq_true, beq_iff_eq] at hok
         obtain ⟨⟨h1, h2⟩, h3⟩ := hok
-        rw [hw] at tok sup busy act proc
+        rw [hw] at tok sup busy act proc tail
         rw [hq] at tok sup
-        refine ⟨?_, ?_, ?_, ?_, ?_, ?_, ?_, ?_, ?_, ?_⟩
+        refine ⟨?_, ?_, ?_, ?_, ?_, ?_, ?_, ?_, ?_, ?_, ?_, ?_⟩
         · numtac s
         · numtac s
         all_goals (simp_all <;> (intro hb; rcases busy hb with h | h | h <;> simp [h]))
@@ -640,7 +692,7 @@ theorem good_step {s s' : St} (h : Good s) (a : Act) (hs : step s a = some s') :
 
 theorem good_init : Good init := by
   right
-  refine ⟨?_, ?_, ?_, ?_, ?_, ?_, ?_, ?_, ?_, ?_⟩ <;> simp [init, tokens, owed, wfW, wfM, firstRelIsStore, Prog.isBusy, Prog.isProcessing]
+  refine ⟨?_, ?_, ?_, ?_, ?_, ?_, ?_, ?_, ?_, ?_, ?_, ?_⟩ <;> simp [init, tokens, owed, wfW, wfM, firstRelIsStore, Prog.isBusy, Prog.isProcessing]
 
 theorem reachable_good {s : St} (h : Reachable s) : Good s := by
   induction h with
